@@ -881,3 +881,6 @@ func (p *Pool) HashStateBytes(s *specqbft.State, startValue []byte, canProcess b
 	w.HashState(&b, s, startValue, canProcess)
 	return b.Bytes()
 }
+
+// Collect moves whatever operator o emitted / armed / saved since the last call into the world.
+func (w *World) Collect(o *Op) Report { return w.collect(o, Report{Op: o.ID}) }
